@@ -789,10 +789,15 @@ static void battery(int b)
 		}
 		{ struct evbuffer_ptr r = evbuffer_search(eb, "x", 0, &p);
 		  if (r.pos != (ssize_t)s) { failk("battery/search", "empty-pattern", "%s: search(len 0, start %zu) = %zd", BN[b], s, (ssize_t)r.pos); return; } }
-		for (int j = 0; j < np; j++) {
-			struct evbuffer_ptr e; size_t en = pos[j];
-			if (evbuffer_ptr_set(eb, &e, en, EVBUFFER_PTR_SET)) continue;
-			for (unsigned w = 1; w < 3; w++) {
+		for (unsigned w = 1; w < 3; w++) {
+			/* end positions around the first match after s (where the answer flips) + the fixed positions */
+			ssize_t mt = bs_search_range(m, pats[w], patlen[w], (ssize_t)s, -1);
+			size_t ends[12]; int ne = 0;
+			if (mt >= 0) { ends[ne++] = (size_t)mt; ends[ne++] = (size_t)mt + patlen[w] - 1; ends[ne++] = (size_t)mt + patlen[w]; ends[ne++] = (size_t)mt + patlen[w] + 1; }
+			ends[ne++] = L; ends[ne++] = CAP; ends[ne++] = s; ends[ne++] = 0;
+			for (int j = 0; j < ne; j++) {
+				struct evbuffer_ptr e; size_t en = ends[j];
+				if (en > L || evbuffer_ptr_set(eb, &e, en, EVBUFFER_PTR_SET)) continue;
 				struct evbuffer_ptr r = evbuffer_search_range(eb, pats[w], patlen[w], &p, &e);
 				ssize_t exp = bs_search_range(m, pats[w], patlen[w], (ssize_t)s, (ssize_t)en);
 				MC_COUNT("battery_search_range");
